@@ -293,7 +293,7 @@ func (e *Exec) store(t types.Type, p Value, v Value, instr ssa.Instruction) {
 			panic(e.runtimePanic("invalid memory address or nil pointer dereference"))
 		}
 		e.logAccess(p, true, instr)
-		*p = copyVal(v)
+		storeInPlace(p, v)
 		return
 	case *SymPtr:
 		nv, ok := v.(*Term)
@@ -307,6 +307,34 @@ func (e *Exec) store(t types.Type, p Value, v Value, instr ssa.Instruction) {
 		return
 	}
 	panic(errorf("store through %T", p))
+}
+
+// storeInPlace keeps the identity of struct fields and array elements (there
+// may be pointers to them), as a real store does.
+func storeInPlace(p *Value, v Value) {
+	switch nv := v.(type) {
+	case StructV:
+		if old, ok := (*p).(StructV); ok && len(old) == len(nv) {
+			for i := range nv {
+				storeInPlace(&old[i], nv[i])
+			}
+			return
+		}
+	case ArrayV:
+		if old, ok := (*p).(ArrayV); ok && len(old) == len(nv) {
+			if len(nv) > 0 {
+				if _, scalar := nv[0].(*Term); scalar {
+					copy(old, nv)
+					return
+				}
+			}
+			for i := range nv {
+				storeInPlace(&old[i], nv[i])
+			}
+			return
+		}
+	}
+	*p = copyVal(v)
 }
 
 // ---- equality ----
